@@ -1,5 +1,6 @@
 import SSDriver.C13
 import SSDriver.C10
+import SSDriver.C07
 import SSDriver.C20
 import SSDriver.C08
 import SSDriver.C09
@@ -19,6 +20,7 @@ def dispatch (j : Json) : Except String String := do
   let p ← (← j.getObjVal? "p").getStr?
   match p with
   | "C13" => SS.Drv.C13.handle j
+  | "C07" => SS.Drv.C07.handle j
   | "C20" => SS.Drv.C20.handle j
   | "C08" => SS.Drv.C08.handle j
   | "C09" => SS.Drv.C09.handle j
